@@ -1,6 +1,6 @@
 PROP = dict(
     id="C02",
-    lean_modules=["TongoProofs.C02", "TongoProofs.C02Compose"],
+    lean_modules=["TongoProofs.C02", "TongoProofs.C02Compose", "TongoProofs.C02Kat"],
     gen=["LevelMask", "CellDesc"],
     # the model of newImmutableCell is PROVED equal to the TON definition (impl_eq_spec, table_refines_tree), so its
     # answers are the specification: a mismatch on these ops is a violation with the table as failing input.
@@ -44,13 +44,24 @@ PROP = dict(
         "mutation of a tree between two calls of the same Hasher is outside the property (CacheInv is the hypothesis "
         "of cache_sound)",
     ],
-    partial=[],
+    partial=[
+        "'how the cell was obtained': built in memory from raw parts and parsed from a bag of cells are theorems "
+        "(parsed_cells_hash_total); 'produced by the library's proof builder' is a theorem only through C18 on the trees "
+        "the prover supports (plain: level 0, ordinary/library cells) - for other inputs it is the direct oracles "
+        "go.built / go.builtdict / go.obtained",
+        "hash_structural adds nothing over cache_sound (after memo_agrees both sides are Cell.info of the same tree); "
+        "in the memo model a failed call drops the table updates, whereas Go keeps the entries of the sub-cells hashed "
+        "before the failure - harmless because every theorem holds for ANY table satisfying CacheInv",
+        "the specification totalises reads beyond the data of a malformed pruned branch (Spec.storedDepth uses getD 0); "
+        "it is only meant on WFExotic cells (short_pruned_reads_padding documents the difference)",
+        "known-answer vectors (TongoProofs/C02Kat.lean) are kernel-evaluated TESTS on literals, not theorems",
+    ],
     level="proof",
     level_text="Theorems for ALL cell trees (lean/TongoProofs/C02.lean, no sorry/axioms beyond propext, Classical.choice, "
                "Quot.sound): impl_eq_spec - for every tree satisfying the decidable exotic-cell rules WFExotic (in fact "
                "the weaker wfSizes) and within the depth limit, the line-by-line model of newImmutableCell + "
                "immutableCell.Hash/Depth returns at levels 0..4 exactly the hashes/depths of the TON definition "
-               "(Spec.hashAt/depthAt, written independently by recursion on cell and level) and Level() = bit length of "
+               "(Spec.hashAt/depthAt: recursion on cell and level with its OWN byte formulas - descriptor arithmetic, completion tag, big-endian depths, byte packing; no helper of the model is used; pinned by kernel-evaluated known-answer vectors with the real SHA-256: empty cell, reference-node hashes of block cells, a pruned branch at 4 levels, a real Merkle proof and Merkle update) and Level() = bit length of "
                "the mask, for every hash function H; reprHash_eq_spec (Cell.Hash = hash at level 3); depth_limit "
                "(ErrDepthIsTooBig iff a non-pruned cell would exceed depth 1024 at some level); no_panic_wf, and "
                "no_panic_any (with the 128-byte cell buffers hashing never panics on ANY tree with 3-bit masks, "
@@ -60,7 +71,7 @@ PROP = dict(
                "levelmask_bits (finite table, kernel decide) and gen_levelmask tying the hand model of the mask helpers "
                "to definitions regenerated from boc/level_mask.go on every run; cache_sound / cache_sound_errors / hasher_calls_sound (both tables of a Hasher - immutable cells and hex strings - "
                "any sequence of Hash/HashString calls: every answer, value OR error, equals the uncached function's; "
-               "an error is never stored) / hash_structural (memoised "
+               "an error is never stored) / hash_structural; hash_ignores_reads (cells carrying agent bits' byte-level BitString with read cursor and a reference cursor at every node: any number of read-only operations anywhere leaves every hash unchanged) (memoised "
                "hashing with any valid pointer-keyed table = plain recursion; result depends on the tree only); "
                "table_refines_tree (the table evaluation run by the compiled driver = the tree recursion the theorems "
                "are about); forms_eq_spec (Hash256 / HashString / Level()); msg_tx_hash_is_spec (hash field of a decoded "
